@@ -426,7 +426,7 @@ func run(r *Rng, tier string, n int) {
 		}
 	}
 	// pointer chains of 125/126/127/128 hops ending in a name
-	for _, hops := range []int{1, 125, 126, 127, 128} {
+	for _, hops := range []int{1, 125, 126, 127, 128, 129} {
 		msg := []byte{1, 'a', 0}
 		for h := 0; h < hops; h++ {
 			tgt := 0
@@ -438,7 +438,7 @@ func run(r *Rng, tier string, n int) {
 		off := len(msg) - 2
 		got := unpackAt(msg, off)
 		Emit("unpack", []string{Hx(msg), Itoa(off)}, got)
-		if hops <= 126 && !strings.HasPrefix(got, "ok:") || hops > 126 && got != "err:pointers" {
+		if hops <= 127 && !strings.HasPrefix(got, "ok:") || hops > 127 && got != "err:pointers" {
 			Viol("C03/unpack/pointer-hop-limit", "pointer chain of "+Itoa(hops)+" hops: "+got, in03{Wire: Hx(msg)})
 		}
 	}
